@@ -184,7 +184,7 @@ LRU = {
     "scheme": [cp(x) for x in ["http://", "https://", ""]],
     "userinfo": [cp(x) for x in ["", "user@", "user:mdp@", "U-1:p%40w@"]],
     "host": [cp(x) for x in ["lemonde.fr", "www.lemonde.fr", "theguardian.co.uk", "Blog.Example.COM", "192.168.0.1", "[::1]", "localhost",
-                              "a.b.example.org", "co.uk", "[2001:db8::AB]", "[2001:db8::]"]],      # a bare public suffix; an IPv6 literal with hex letters
+                              "a.b.example.org", "co.uk", "[2001:db8::AB]", "[2001:db8::]", "[::ffff:192.168.0.1]"]],      # a bare public suffix; IPv6 literals with hex letters / a dotted-quad tail
     "port": [cp(x) for x in ["", ":8080", ":80"]],
     "path": [cp(x) for x in ["", "/", "/a", "/a/", "/a/b.html", "//a/b", "/a//b/", "/a:b/c@d", "/A/B"]],
     "query": [cp(x) for x in ["", "?", "?q=1", "?a=b:c@d&e=f", "?x"]],
